@@ -615,7 +615,7 @@ Definition model_frame (max : N) (x1 : ctx) (f : raw_frame) : res (option messag
       match post_frame (role_eqb (x_role x1) Server) (cfg_accept_unmasked (x_cfg x1))
                        (ROk (Some (hdr_of (rf_hdr f), rh_len (rf_hdr f), rf_payload f))) with
       | ROk (Some fr) => on_frame x1 fr
-      | ROk None => (ROk None, x1)
+      | ROk None => (RErr (EProtocol ResetWithoutClosingHandshake), set_state x1 Terminated)
       | RErr e => (RErr e, x1)
       | RPanic s => (RPanic s, x1)
       | ROutOfFuel => (ROutOfFuel, x1)
@@ -746,3 +746,620 @@ Proof.
       destruct (r1 || r2 || r3); cbn [step_ok fst]; eexists; split; reflexivity.
     + apply Hgoal; reflexivity.
 Qed.
+
+(* spec-side shape facts *)
+Definition is_close (m : message) : bool := match m with MClose _ => true | _ => false end.
+
+Lemma rfc_fragment_shape mms k all fin :
+  match rfc_fragment mms k all fin with
+  | VDeliver m _ => is_close m = false
+  | VClose _ => False
+  | _ => True
+  end.
+Proof.
+  unfold rfc_fragment. destruct (over mms (blen all)); [exact I|].
+  destruct k; destruct fin; try exact I; try reflexivity.
+  - destruct (utf8_valid all); [reflexivity|exact I].
+  - destruct (utf8_prefix all); exact I.
+Qed.
+
+Lemma rfc_step_shape r au mfs mms a f :
+  match rfc_step r au mfs mms a f with
+  | VDeliver m _ => is_close m = false
+  | VClose m => is_close m = true
+  | _ => True
+  end.
+Proof.
+  unfold rfc_step. destruct (rfc_header_check mfs (rf_hdr f)); [exact I|].
+  destruct (negb _); [exact I|]. destruct (_ || _ || _); [exact I|].
+  destruct (8 <=? _).
+  - destruct (negb _ || _); [exact I|]. destruct (_ =? 9); [reflexivity|].
+    destruct (_ =? 10); [reflexivity|]. unfold rfc_close.
+    destruct (match rh_key (rf_hdr f) with Some k => _ | None => _ end) as [|c1 [|c2 reason]]; try exact I; try reflexivity.
+    destruct (utf8_valid reason); [reflexivity|exact I].
+  - destruct (_ =? 0).
+    + destruct a as [[k acc]|]; [|exact I].
+      pose proof (rfc_fragment_shape mms k (acc ++ match rh_key (rf_hdr f) with Some k0 => rfc_unmask k0 (rf_payload f) | None => rf_payload f end) (rh_fin (rf_hdr f))) as X.
+      destruct (rfc_fragment _ _ _ _); try exact I; try exact X. contradiction.
+    + destruct a as [[k acc]|]; [exact I|].
+      pose proof (rfc_fragment_shape mms (if rh_opcode (rf_hdr f) =? 1 then KText else KBinary) (match rh_key (rf_hdr f) with Some k0 => rfc_unmask k0 (rf_payload f) | None => rf_payload f end) (rh_fin (rf_hdr f))) as X.
+      destruct (rfc_fragment _ _ _ _); try exact I; try exact X. contradiction.
+Qed.
+
+(* ------------------------------------------------------------------------------------------- *)
+(** * C. Lifting to read / run_ops *)
+
+(** ** C.1 the write side is invisible to the read side
+
+   A transport whose write side never fails hard: every write accepts at least one byte or answers
+   WouldBlock, every flush succeeds or answers WouldBlock (an exhausted oracle answers WouldBlock).
+   This covers "accepts everything" (WrAccept n with n >= offered, FlOk). *)
+Definition wr_benign (o : wr_out) : Prop := match o with WrAccept n => 0 < n | WrErr k => k = WouldBlock end.
+Definition fl_benign (o : fl_out) : Prop := match o with FlOk => True | FlErr k => k = WouldBlock end.
+Definition benign (w : world) : Prop := Forall wr_benign (w_wrs w) /\ Forall fl_benign (w_fls w).
+
+Definition soft {A} (r : res A) : Prop :=
+  match r with ROk _ => True | RErr (EIo WouldBlock) => True | _ => False end.
+
+Lemma write_out_loop_soft wrs : forall out log r out' wrs' log',
+  Forall wr_benign wrs -> write_out_loop wrs out log = (r, out', wrs', log') ->
+  soft r /\ Forall wr_benign wrs'.
+Proof.
+  induction wrs as [|o rest IH]; intros out log r out' wrs' log' Hb E; destruct out as [|b out0];
+    cbn [write_out_loop] in E.
+  - injection E as <- _ <- _. split; [exact I|exact Hb].
+  - injection E as <- _ <- _. split; [exact I|constructor].
+  - injection E as <- _ <- _. split; [exact I|exact Hb].
+  - inversion Hb as [|? ? Ho Hrest]; subst. destruct o as [n|k].
+    + cbn [wr_benign] in Ho.
+      assert (Hn : N.min n (blen (b :: out0)) =? 0 = false).
+      { unfold blen. cbn [length]. lia. }
+      rewrite Hn in E. exact (IH _ _ _ _ _ _ Hrest E).
+    + cbn [wr_benign] in Ho. subst k. injection E as <- _ <- _. split; [exact I|exact Hrest].
+Qed.
+
+(* what the read side sees of context and world *)
+Definition rside (x : ctx) (w : world) (x' : ctx) (w' : world) : Prop :=
+  x_state x' = x_state x /\ x_role x' = x_role x /\ x_cfg x' = x_cfg x /\ x_incomplete x' = x_incomplete x /\
+  c_in (x_codec x') = c_in (x_codec x) /\ c_hdr (x_codec x') = c_hdr (x_codec x) /\
+  w_rds w' = w_rds w /\ benign w'.
+
+Lemma rside_refl x w : benign w -> rside x w x w.
+Proof. intros H. unfold rside. auto 10. Qed.
+
+Lemma rside_trans x0 w0 x1 w1 x2 w2 : rside x0 w0 x1 w1 -> rside x1 w1 x2 w2 -> rside x0 w0 x2 w2.
+Proof.
+  unfold rside. intros [A1 [A2 [A3 [A4 [A5 [A6 [A7 A8]]]]]]] [B1 [B2 [B3 [B4 [B5 [B6 [B7 B8]]]]]]].
+  rewrite B1, B2, B3, B4, B5, B6, B7. auto 10.
+Qed.
+
+Lemma write_out_buffer_rside x w r c' w' : benign w ->
+  write_out_buffer (x_codec x) w = (r, c', w') -> soft r /\ rside x w (set_codec x c') w'.
+Proof.
+  intros [Hw Hf]. unfold write_out_buffer.
+  destruct (write_out_loop (w_wrs w) (c_out (x_codec x)) (w_log w)) as [[[r1 out'] wrs'] log'] eqn:E.
+  intros H. injection H as <- <- <-.
+  destruct (write_out_loop_soft _ _ _ _ _ _ _ Hw E) as [S1 S2].
+  split; [exact S1|]. unfold rside, benign. cbn. auto 10.
+Qed.
+
+Lemma w_flush_rside x w r w' : benign w -> w_flush w = (r, w') -> soft r /\ rside x w x w'.
+Proof.
+  intros [Hw Hf]. unfold w_flush. destruct (w_fls w) as [|o rest] eqn:Ef.
+  - intros H. injection H as <- <-. split; [exact I|]. unfold rside, benign. cbn. rewrite Ef. auto 10.
+  - inversion Hf as [|? ? Ho Hrest]; subst. destruct o as [|k].
+    + intros H. injection H as <- <-. split; [exact I|]. unfold rside, benign. cbn. auto 10.
+    + cbn [fl_benign] in Ho. subst k. intros H. injection H as <- <-. split; [exact I|].
+      unfold rside, benign. cbn. auto 10.
+Qed.
+
+Lemma codec_buffer_frame_rside x f w r c' w' : benign w ->
+  codec_buffer_frame (x_codec x) f w = (r, c', w') ->
+  (soft r \/ r = RErr (EWriteBufferFull f)) /\ rside x w (set_codec x c') w'.
+Proof.
+  intros Hb. unfold codec_buffer_frame.
+  destruct (c_max_out (x_codec x) <? frame_len f + blen (c_out (x_codec x))).
+  - intros H. injection H as <- <- <-. split; [right; reflexivity|].
+    destruct Hb. unfold rside, benign. cbn. auto 10.
+  - set (c1 := set_out (x_codec x) (frame_format_into_buf (c_out (x_codec x)) f)).
+    set (w1 := w_emit w (EvQueue f)).
+    assert (Hb1 : benign w1) by (destruct Hb; split; assumption).
+    destruct (c_write_len (x_codec x) <? blen (c_out c1)).
+    + intros H. change c1 with (x_codec (set_codec x c1)) in H.
+      destruct (write_out_buffer_rside _ _ _ _ _ Hb1 H) as [S R]. split; [left; exact S|].
+      unfold rside in *. cbn in *. exact R.
+    + intros H. injection H as <- <- <-. split; [left; exact I|].
+      destruct Hb1. unfold rside, benign. cbn. auto 10.
+Qed.
+
+Lemma check_reset_active {A} (r : res A) : check_connection_reset r Active = (r, Active).
+Proof. destruct r as [a|[| |[]| | | |]|s|]; reflexivity. Qed.
+
+Lemma buffer_frame_rside x f w r x' w' : x_state x = Active -> benign w ->
+  buffer_frame x f w = (r, x', w') ->
+  (soft r \/ exists f', r = RErr (EWriteBufferFull f')) /\ rside x w x' w' /\
+  x_additional x' = x_additional x /\ x_unflushed x' = x_unflushed x.
+Proof.
+  intros Hst Hb. unfold buffer_frame.
+  set (fw := match x_role x with Server => (f, w) | Client => _ end).
+  assert (Hfw : benign (snd fw) /\ w_rds (snd fw) = w_rds w).
+  { unfold fw. destruct (x_role x); [split; [exact Hb|reflexivity]|].
+    unfold w_next_key. destruct (w_keys w); cbn [snd]; (split; [exact Hb|reflexivity]). }
+  destruct fw as [f1 w1]. cbn [snd] in Hfw. destruct Hfw as [Hb1 Hr1].
+  destruct (codec_buffer_frame (x_codec x) f1 w1) as [[r1 c'] w2] eqn:E.
+  rewrite Hst, check_reset_active. intros H. injection H as <- <- <-.
+  destruct (codec_buffer_frame_rside _ _ _ _ _ _ Hb1 E) as [S R].
+  split; [destruct S as [S|S]; [left; exact S|right; eexists; exact S]|].
+  split; [|split; reflexivity].
+  unfold rside in *. cbn in *. rewrite <- Hr1, <- Hst. exact R.
+Qed.
+
+Lemma rside_set_additional x w f : benign w -> rside x w (set_additional x f) w.
+Proof.
+  intros Hb. destruct (same_side_set_additional x f) as [[S1 [S2 [S3 S4]]] S5].
+  unfold rside. rewrite S1, S2, S3, S4, S5. auto 10.
+Qed.
+
+Lemma write__none_rside x w r x' w' : x_state x = Active -> benign w ->
+  write_ x None w = (r, x', w') -> soft r /\ rside x w x' w'.
+Proof.
+  intros Hst Hb. unfold write_. destruct (x_additional x) as [msg|] eqn:Ea.
+  - set (xa := set_additional_raw x None).
+    assert (Hxa : rside x w xa w) by (unfold rside; cbn; auto 10).
+    assert (Hsa : x_state xa = Active) by exact Hst.
+    destruct (buffer_frame xa msg w) as [[rb xb] wb] eqn:Eb.
+    destruct (buffer_frame_rside _ _ _ _ _ _ Hsa Hb Eb) as [S [R _]].
+    assert (Hsb : x_state xb = Active) by (destruct R as [R1 _]; rewrite R1; exact Hsa).
+    pose proof (rside_trans _ _ _ _ _ _ Hxa R) as R'.
+    destruct rb as [u|e|s|].
+    + rewrite Hsb. cbn [closing_done]. rewrite andb_false_r. cbn [andb].
+      intros H. injection H as <- <- <-. split; [exact I|exact R'].
+    + destruct S as [S|[f' S]].
+      * destruct e as [| |k| | | |]; try contradiction. destruct k; try contradiction.
+        intros H. injection H as <- <- <-. split; [exact I|exact R'].
+      * injection S as ->.
+        assert (Hbb : benign wb) by (destruct R' as [_ [_ [_ [_ [_ [_ [_ X]]]]]]]; exact X).
+        pose proof (rside_trans _ _ _ _ _ _ R' (rside_set_additional xb wb f' Hbb)) as R2.
+        assert (Hs2 : x_state (set_additional xb f') = Active).
+        { destruct (same_side_set_additional xb f') as [[S1 _] _]. rewrite S1. exact Hsb. }
+        rewrite Hs2. cbn [closing_done]. rewrite andb_false_r. cbn [andb].
+        intros H. injection H as <- <- <-. split; [exact I|exact R2].
+    + destruct S as [S|[f' S]]; [contradiction|discriminate].
+    + destruct S as [S|[f' S]]; [contradiction|discriminate].
+  - rewrite Hst. cbn [closing_done]. rewrite andb_false_r. cbn [andb].
+    intros H. injection H as <- <- <-. split; [exact I|apply rside_refl; exact Hb].
+Qed.
+
+Lemma rside_benign x w x' w' : rside x w x' w' -> benign w'.
+Proof. intros [_ [_ [_ [_ [_ [_ [_ X]]]]]]]. exact X. Qed.
+
+Lemma rside_state x w x' w' : rside x w x' w' -> x_state x' = x_state x.
+Proof. intros [X _]. exact X. Qed.
+
+Lemma flush_rside x w r x' w' : x_state x = Active -> benign w ->
+  flush x w = (r, x', w') -> soft r /\ rside x w x' w'.
+Proof.
+  intros Hst Hb. unfold flush.
+  destruct (write_ x None w) as [[r0 x0] w0] eqn:E0.
+  destruct (write__none_rside _ _ _ _ _ Hst Hb E0) as [S0 R0].
+  pose proof (rside_benign _ _ _ _ R0) as Hb0.
+  destruct r0 as [u|e|s|]; try contradiction.
+  - destruct (write_out_buffer (x_codec x0) w0) as [[r1 c1] w1] eqn:E1.
+    destruct (write_out_buffer_rside _ _ _ _ _ Hb0 E1) as [S1 R1].
+    pose proof (rside_trans _ _ _ _ _ _ R0 R1) as R01.
+    pose proof (rside_benign _ _ _ _ R1) as Hb1.
+    destruct r1 as [u1|e1|s1|]; try contradiction.
+    + destruct (w_flush w1) as [r2 w2] eqn:E2.
+      destruct (w_flush_rside (set_codec x0 c1) _ _ _ Hb1 E2) as [S2 R2].
+      pose proof (rside_trans _ _ _ _ _ _ R01 R2) as R012.
+      destruct r2 as [u2|e2|s2|]; try contradiction.
+      * intros H. injection H as <- <- <-. split; [exact I|].
+        unfold rside in *. cbn in *. exact R012.
+      * intros H. injection H as <- <- <-. split; [exact S2|exact R012].
+    + intros H. injection H as <- <- <-. split; [exact S1|exact R01].
+  - intros H. injection H as <- <- <-. split; [exact S0|exact R0].
+Qed.
+
+(* the part of read's loop body that precedes read_message_frame *)
+Definition pre_read (x : ctx) (w : world) : res unit * ctx * world :=
+  if (match x_additional x with Some _ => true | None => false end) || x_unflushed x then
+    let '(r, x', w') := flush x w in
+    match r with
+    | ROk _ => (ROk tt, x', w')
+    | RErr (EIo WouldBlock) => (ROk tt, set_unflushed x' true, w')
+    | _ => (r, x', w')
+    end
+  else if role_eqb (x_role x) Server && negb (can_read (x_state x)) then
+    let '(rw, c', w') := write_out_buffer (x_codec x) w in
+    match rw with
+    | ROk _ => (RErr EConnectionClosed, set_state (set_codec x c') Terminated, w')
+    | _ => (rw, set_codec x c', w')
+    end
+  else (ROk tt, x, w).
+
+Lemma read_loop_eq fuel x w :
+  read_loop (S fuel) x w =
+  let '(r0, x0, w0) := pre_read x w in
+  match r0 with
+  | ROk _ =>
+      let '(r1, x1, w1) := read_message_frame x0 w0 in
+      match r1 with
+      | ROk (Some m) => (ROk m, x1, w1)
+      | ROk None => read_loop fuel x1 w1
+      | RErr e => (RErr e, x1, w1)
+      | RPanic s => (RPanic s, x1, w1)
+      | ROutOfFuel => (ROutOfFuel, x1, w1)
+      end
+  | RErr e => (RErr e, x0, w0)
+  | RPanic s => (RPanic s, x0, w0)
+  | ROutOfFuel => (ROutOfFuel, x0, w0)
+  end.
+Proof. reflexivity. Qed.
+
+Lemma pre_read_rside x w : x_state x = Active -> benign w ->
+  exists x0 w0, pre_read x w = (ROk tt, x0, w0) /\ rside x w x0 w0.
+Proof.
+  intros Hst Hb. unfold pre_read.
+  destruct ((match x_additional x with Some _ => true | None => false end) || x_unflushed x).
+  - destruct (flush x w) as [[r x'] w'] eqn:E.
+    destruct (flush_rside _ _ _ _ _ Hst Hb E) as [S R].
+    destruct r as [u|e|s|]; try contradiction.
+    + exists x', w'. split; [reflexivity|exact R].
+    + destruct e as [| |k| | | |]; try contradiction. destruct k; try contradiction.
+      exists (set_unflushed x' true), w'. split; [reflexivity|]. unfold rside in *. cbn in *. exact R.
+  - rewrite Hst. cbn [can_read negb]. rewrite andb_false_r.
+    exists x, w. split; [reflexivity|apply rside_refl; exact Hb].
+Qed.
+
+(** ** C.2 fuel: read's bound is enough
+
+   [pot c + rd_bytes rds] strictly decreases with every frame read_frame_loop delivers; a held header
+   counts only if it announces an empty payload, which never survives a call. *)
+Definition pot (c : codec) : nat :=
+  (length (c_in c) + match c_hdr c with Some (_, len) => if N.eqb len 0%N then 1 else 0 | None => 0 end)%nat.
+Definition hdr_nz (c : codec) : Prop := match c_hdr c with Some (_, len) => len <> 0 | None => True end.
+
+Lemma pot_nz c : hdr_nz c -> pot c = length (c_in c).
+Proof.
+  unfold hdr_nz, pot. destruct (c_hdr c) as [[h len]|]; [|lia].
+  intros H. destruct (len =? 0) eqn:E; lia.
+Qed.
+
+Lemma held_pot max c h len : c_hdr c = Some (h, len) ->
+  match held max c h len with
+  | TkPayload _ _ _ c' => (pot c' < pot c)%nat /\ c_hdr c' = None
+  | TkNeedMore _ c' => c' = c /\ len <> 0
+  | _ => True
+  end.
+Proof.
+  intros Hh. unfold held. destruct (max <? len); [exact I|].
+  destruct (len <=? blen (c_in c)) eqn:El.
+  - split; [|reflexivity]. unfold pot. cbn [c_in c_hdr set_in set_hdr]. rewrite Hh, length_dropN.
+    unfold blen in El. destruct (len =? 0) eqn:E0; lia.
+  - split; [reflexivity|]. unfold blen in El. lia.
+Qed.
+
+Lemma try_take_pot max c :
+  match try_take max c with
+  | TkPayload _ _ _ c' => (pot c' < pot c)%nat /\ c_hdr c' = None
+  | TkNeedMore _ c' => (pot c' <= pot c)%nat /\ hdr_nz c'
+  | _ => True
+  end.
+Proof.
+  rewrite try_take_eq. destruct (c_hdr c) as [[h len]|] eqn:Hh.
+  - pose proof (held_pot max c h len Hh) as X.
+    destruct (held max c h len) as [h' len' p c'|n c'|e c'|s]; try exact I; [exact X|].
+    destruct X as [-> Hn]. split; [lia|]. unfold hdr_nz. rewrite Hh. exact Hn.
+  - destruct (header_parse (c_in c)) as [h len k| |i|] eqn:Hp; try exact I.
+    + destruct (hp_ok _ _ _ _ Hp) as [Hk _].
+      set (c1 := set_hdr (set_in c (dropN k (c_in c))) (Some (h, len))).
+      assert (H1 : (pot c1 < pot c)%nat).
+      { unfold pot, c1. cbn [c_in c_hdr set_in set_hdr]. rewrite Hh, length_dropN.
+        unfold blen in Hk. destruct (len =? 0); lia. }
+      pose proof (held_pot max c1 h len eq_refl) as X.
+      destruct (held max c1 h len) as [h' len' p c'|n c'|e c'|s]; try exact I.
+      * destruct X as [X1 X2]. split; [lia|exact X2].
+      * destruct X as [-> Hn]. split; [lia|]. unfold hdr_nz, c1. cbn [c_hdr set_hdr]. exact Hn.
+    + split; [lia|]. unfold hdr_nz. rewrite Hh. exact I.
+Qed.
+
+Lemma rfl_pot max : forall rds c r c' rds',
+  rfl max rds c = (r, c', rds') ->
+  match classify r with
+  | KFrame => (pot c' + rd_bytes rds' < pot c + rd_bytes rds)%nat /\ c_hdr c' = None
+  | KWB => (pot c' + rd_bytes rds' <= pot c + rd_bytes rds)%nat /\ hdr_nz c'
+  | KStop => True
+  end.
+Proof.
+  induction rds as [|o rest IH]; intros c r c' rds' E; rewrite rfl_eq in E;
+    pose proof (try_take_pot max c) as Hp;
+    destruct (try_take max c) as [h len p c1|n c1|e c1|s] eqn:Et.
+  - injection E as <- <- <-. cbn [classify]. destruct Hp. split; [lia|assumption].
+  - injection E as <- <- <-. cbn [classify rd_bytes]. destruct Hp. split; [lia|assumption].
+  - injection E as <- <- <-. rewrite (classify_err_not_io e (try_take_err_not_io _ _ _ _ Et)). exact I.
+  - injection E as <- <- <-. exact I.
+  - injection E as <- <- <-. cbn [classify]. destruct Hp. split; [cbn [rd_bytes]; lia|assumption].
+  - destruct Hp as [Hp1 Hp2]. destruct o as [[|b bs]| |k].
+    + injection E as <- <- <-. exact I.
+    + specialize (IH _ _ _ _ E).
+      assert (Hc : pot (set_in c1 (c_in c1 ++ b :: bs)) = (pot c1 + length (b :: bs))%nat).
+      { unfold pot. cbn [c_in c_hdr set_in]. rewrite app_length. lia. }
+      cbn [rd_bytes]. destruct (classify r).
+      * destruct IH as [I1 I2]. split; [lia|exact I2].
+      * destruct IH as [I1 I2]. split; [lia|exact I2].
+      * exact I.
+    + injection E as <- <- <-. exact I.
+    + injection E as <- <- <-. destruct k; cbn [classify]; try exact I.
+      split; [cbn [rd_bytes]; lia|exact Hp2].
+  - injection E as <- <- <-. rewrite (classify_err_not_io e (try_take_err_not_io _ _ _ _ Et)). exact I.
+  - injection E as <- <- <-. exact I.
+Qed.
+
+(** ** C.3 read_message_frame on an Active context *)
+
+Lemma rmf_active x w : x_state x = Active ->
+  read_message_frame x w =
+  let '(r, c', rds') := rfl (limit_of (cfg_max_frame_size (x_cfg x))) (w_rds w) (x_codec x) in
+  let w1 := mkWorld rds' (w_wrs w) (w_fls w) (w_keys w)
+                    (rfl_log (limit_of (cfg_max_frame_size (x_cfg x))) (w_rds w) (x_codec x) (w_log w)) in
+  let x1 := set_state (set_codec x c') Active in
+  match post_frame (role_eqb (x_role x) Server) (cfg_accept_unmasked (x_cfg x)) r with
+  | ROk (Some f) => let '(r2, x2) := on_frame x1 f in (r2, x2, w1)
+  | ROk None => (RErr (EProtocol ResetWithoutClosingHandshake), set_state x1 Terminated, w1)
+  | RErr e => (RErr e, x1, w1)
+  | RPanic s => (RPanic s, x1, w1)
+  | ROutOfFuel => (ROutOfFuel, x1, w1)
+  end.
+Proof.
+  intros Hst. rewrite rmf_unfold, read_frame_eq.
+  destruct (rfl _ _ _) as [[r c'] rds']. rewrite Hst, check_reset_active.
+  destruct (post_frame _ _ r) as [[f|]|e|s|]; reflexivity.
+Qed.
+
+(** ** C.4 raw_view inversions *)
+
+Lemma raw_of_check_cases max h :
+  raw_of_check max h = None \/ exists e, raw_of_check max h = Some (RErr e) /\ forall k, e <> EIo k.
+Proof.
+  unfold raw_of_check. destruct (reserved_opcode (rh_opcode h)).
+  - right. eexists. split; [reflexivity|discriminate].
+  - destruct (max <? rh_len h); [|left; reflexivity].
+    right. eexists. split; [reflexivity|discriminate].
+Qed.
+
+Lemma raw_check_spec mfs h :
+  match raw_of_check (limit_of mfs) h, rfc_header_check mfs h with
+  | None, None => True
+  | Some (RErr e), Some c => class_of e = Some c
+  | _, _ => False
+  end.
+Proof.
+  unfold raw_of_check, rfc_header_check. rewrite over_limit.
+  destruct (reserved_opcode (rh_opcode h)); [reflexivity|].
+  destruct (limit_of mfs <? rh_len h); [reflexivity|exact I].
+Qed.
+
+Lemma raw_view_nonempty max fs t : raw_view max fs t <> [].
+Proof.
+  destruct fs as [|f fs']; cbn [raw_view].
+  - destruct t as [bs|h got]; [discriminate|]. destruct (raw_of_check max h); discriminate.
+  - destruct (raw_of_check max (rf_hdr f)); discriminate.
+Qed.
+
+Lemma raw_view_frame max fs t r V' : raw_view max fs t = r :: V' -> classify r = KFrame ->
+  exists f fs', fs = f :: fs' /\ raw_of_check max (rf_hdr f) = None /\
+    r = ROk (Some (hdr_of (rf_hdr f), rh_len (rf_hdr f), rf_payload f)) /\ V' = raw_view max fs' t.
+Proof.
+  destruct fs as [|f fs']; cbn [raw_view].
+  - destruct t as [bs|h got].
+    + intros H. injection H as <- <-. discriminate.
+    + destruct (raw_of_check_cases max h) as [->|[e [-> He]]]; intros H; injection H as <- <-; try discriminate.
+      rewrite (classify_err_not_io e He). discriminate.
+  - destruct (raw_of_check_cases max (rf_hdr f)) as [Hc|[e [Hc He]]]; rewrite Hc.
+    + intros H _. injection H as <- <-. exists f, fs'. auto.
+    + intros H. injection H as <- <-. rewrite (classify_err_not_io e He). discriminate.
+Qed.
+
+Lemma raw_view_stop max fs t r : raw_view max fs t = [r] -> classify r = KStop ->
+  match fs with
+  | [] => match t with
+          | TBytes _ => r = ROk None
+          | THeader h _ => match raw_of_check max h with Some e => r = e | None => r = ROk None end
+          end
+  | f :: _ => raw_of_check max (rf_hdr f) = Some r
+  end.
+Proof.
+  destruct fs as [|f fs']; cbn [raw_view].
+  - destruct t as [bs|h got].
+    + intros H _. injection H as <-. reflexivity.
+    + destruct (raw_of_check max h); intros H _; injection H as <-; reflexivity.
+  - destruct (raw_of_check max (rf_hdr f)).
+    + intros H _. injection H as <-. reflexivity.
+    + intros H. injection H as <- _. discriminate.
+Qed.
+
+(** ** C.5 spec-side size bookkeeping *)
+
+Lemma unmask_data_len (k : option key) (p : bytes) :
+  blen (match k with Some k0 => rfc_unmask k0 p | None => p end) = blen p.
+Proof. destruct k as [k0|]; [|reflexivity]. rewrite rfc_unmask_apply. apply HeaderP.apply_mask_blen. Qed.
+
+Lemma rfc_fragment_len mms k all fin :
+  match rfc_fragment mms k all fin with
+  | VNext a' | VDeliver _ a' => partial_len a' <= blen all
+  | _ => True
+  end.
+Proof.
+  unfold rfc_fragment. destruct (over mms (blen all)); [exact I|].
+  destruct k; destruct fin; cbn [partial_len]; try lia.
+  - destruct (utf8_valid all); cbn [partial_len]; [lia|exact I].
+  - destruct (utf8_prefix all); cbn [partial_len]; [lia|exact I].
+Qed.
+
+Lemma rfc_step_len r au mfs mms a f :
+  match rfc_step r au mfs mms a f with
+  | VNext a' | VDeliver _ a' => partial_len a' <= partial_len a + blen (rf_payload f)
+  | _ => True
+  end.
+Proof.
+  unfold rfc_step. cbv zeta. destruct (rfc_header_check mfs (rf_hdr f)); [exact I|].
+  destruct (negb _); [exact I|]. destruct (_ || _ || _); [exact I|].
+  remember (match rh_key (rf_hdr f) with Some k => rfc_unmask k (rf_payload f) | None => rf_payload f end) as data eqn:Edata.
+  assert (Hd : blen data = blen (rf_payload f)) by (subst data; apply unmask_data_len).
+  clear Edata.
+  destruct (8 <=? _).
+  - destruct (negb _ || _); [exact I|]. destruct (_ =? 9); [lia|]. destruct (_ =? 10); [lia|].
+    unfold rfc_close. destruct data as [|c1 [|c2 reason]]; try exact I. destruct (utf8_valid reason); exact I.
+  - destruct (_ =? 0).
+    + destruct a as [[k acc]|]; [|exact I].
+      pose proof (rfc_fragment_len mms k (acc ++ data) (rh_fin (rf_hdr f))) as X.
+      rewrite blen_app' in X. cbn [partial_len].
+      destruct (rfc_fragment _ _ _ _); try exact I; cbv beta iota in X; lia.
+    + destruct a as [[k acc]|]; [exact I|].
+      pose proof (rfc_fragment_len mms (if rh_opcode (rf_hdr f) =? 1 then KText else KBinary) data (rh_fin (rf_hdr f))) as X.
+      cbn [partial_len]. destruct (rfc_fragment _ _ _ _); try exact I; cbv beta iota in X; lia.
+Qed.
+
+(** ** C.6 the simulation *)
+
+Lemma sview_ext max c c' rds : c_in c' = c_in c -> c_hdr c' = c_hdr c -> sview max c' rds = sview max c rds.
+Proof. intros H1 H2. unfold sview, view. rewrite H1, H2. reflexivity. Qed.
+
+Lemma classify_wb {A} (r : res (option A)) : classify r = KWB -> r = RErr (EIo WouldBlock).
+Proof. destruct r as [[a|]|[| |[]| | | |]|s|]; try discriminate. reflexivity. Qed.
+
+Definition outcome_of (r : res message) : option outcome :=
+  match r with
+  | ROk m => Some (OMsg m)
+  | RErr (EProtocol ResetWithoutClosingHandshake) => Some OEnd
+  | RErr e => option_map OReject (class_of e)
+  | _ => None
+  end.
+
+(* progress measures: P bounds the fuel of one read, M the number of reads *)
+Definition Pm (x : ctx) (w : world) : nat := (pot (x_codec x) + rd_bytes (w_rds w))%nat.
+Definition Mm (x : ctx) (w : world) : nat := mu (x_codec x) (w_rds w).
+
+Section Sim.
+Variables (rl : role) (cfg : config).
+Let mfs := cfg_max_frame_size cfg.
+Let mms := cfg_max_message_size cfg.
+Let au := cfg_accept_unmasked cfg.
+Let max := limit_of mfs.
+Let E := rfc_outcomes rl au mfs mms.
+
+Definition Inv (x : ctx) (w : world) (a : partial) (fs : list raw_frame) (t : tail) : Prop :=
+  x_state x = Active /\ x_role x = rl /\ x_cfg x = cfg /\ acc_rel (x_incomplete x) a /\
+  sview max (x_codec x) (w_rds w) = raw_view max fs t /\ hdr_nz (x_codec x) /\ benign w /\
+  Forall frame_ok fs /\ partial_len a + payload_total fs < two64.
+
+Lemma Inv_rside x w x0 w0 a fs t : Inv x w a fs t -> rside x w x0 w0 ->
+  Inv x0 w0 a fs t /\ Pm x0 w0 = Pm x w /\ Mm x0 w0 = Mm x w.
+Proof.
+  intros [Hst [Hr [Hc [Hacc [Hv [Hnz [Hb [Hok Hsz]]]]]]]] [R1 [R2 [R3 [R4 [R5 [R6 [R7 R8]]]]]]].
+  split; [|split].
+  - unfold Inv. rewrite R1, R2, R3, R4, R7, (sview_ext max _ _ _ R5 R6).
+    repeat (split; [assumption|]). split; [|auto].
+    unfold hdr_nz in *. rewrite R6. exact Hnz.
+  - unfold Pm, pot. rewrite R5, R6, R7. reflexivity.
+  - unfold Mm, mu, buffered, hdr_bit. rewrite R5, R6, R7. reflexivity.
+Qed.
+
+Definition frame_concl (x : ctx) (w : world) (rm : res (option message)) (x' : ctx) (w' : world)
+           (a : partial) (fs : list raw_frame) (t : tail) : Prop :=
+  match fs with
+  | [] =>
+      match rfc_tail mfs t with
+      | None => rm = RErr (EProtocol ResetWithoutClosingHandshake)
+      | Some c => exists e, rm = RErr e /\ class_of e = Some c
+      end
+  | f :: fs' =>
+      match rfc_step rl au mfs mms a f with
+      | VNext a' => rm = ROk None /\ Inv x' w' a' fs' t /\ (Pm x' w' < Pm x w)%nat /\ (Mm x' w' < Mm x w)%nat
+      | VDeliver m a' =>
+          rm = ROk (Some m) /\ Inv x' w' a' fs' t /\ (Pm x' w' < Pm x w)%nat /\ (Mm x' w' < Mm x w)%nat
+      | VClose m => rm = ROk (Some m)
+      | VReject c => exists e, rm = RErr e /\ class_of e = Some c
+      end
+  end.
+
+Lemma rmf_sim x w a fs t rm x' w' : Inv x w a fs t -> read_message_frame x w = (rm, x', w') ->
+  (rm = RErr (EIo WouldBlock) /\ Inv x' w' a fs t /\ (Mm x' w' < Mm x w)%nat) \/
+  frame_concl x w rm x' w' a fs t.
+Proof.
+  intros [Hst [Hr [Hc [Hacc [Hv [Hnz [Hb [Hok Hsz]]]]]]]] Em.
+  rewrite (rmf_active x w Hst), Hc, Hr in Em. fold mfs au max in Em.
+  destruct (rfl max (w_rds w) (x_codec x)) as [[r c'] rds'] eqn:Er.
+  pose proof (rfl_sview max _ _ _ _ _ Er) as Hs. pose proof (rfl_pot max _ _ _ _ _ Er) as Hp.
+  set (w1 := mkWorld rds' (w_wrs w) (w_fls w) (w_keys w) (rfl_log max (w_rds w) (x_codec x) (w_log w))) in *.
+  set (x1 := set_state (set_codec x c') Active) in *.
+  assert (Hb1 : benign w1) by exact Hb.
+  destruct (classify r) eqn:Ec.
+  - (* a frame *)
+    destruct Hs as [Hs HM]. destruct Hp as [HP Hh']. rewrite Hv in Hs.
+    destruct (raw_view_frame _ _ _ _ _ Hs Ec) as [f [fs' [-> [Hck [-> Hv']]]]].
+    right. cbn [frame_concl].
+    pose proof (Forall_inv Hok) as Hf. pose proof (Forall_inv_tail Hok) as Hok'.
+    assert (Hmf : model_frame max x1 f = (rm, x') /\ w' = w1).
+    { unfold model_frame. rewrite Hck.
+      change (x_role x1) with (x_role x). change (x_cfg x1) with (x_cfg x). rewrite Hr, Hc. fold au.
+      cbv zeta in Em. destruct (post_frame (role_eqb rl Server) au _) as [[fr|]|e|s|].
+      - destruct (on_frame x1 fr) as [r2 x2]. injection Em as <- <- <-. auto.
+      - injection Em as <- <- <-. auto.
+      - injection Em as <- <- <-. auto.
+      - injection Em as <- <- <-. auto.
+      - injection Em as <- <- <-. auto. }
+    destruct Hmf as [Hmf ->].
+    assert (Hsz1 : partial_len a + blen (rf_payload f) < two64).
+    { cbn [payload_total] in Hsz. lia. }
+    pose proof (step_refines mfs x1 f a Hf eq_refl Hacc Hsz1) as S.
+    change (x_role x1) with (x_role x) in S. change (x_cfg x1) with (x_cfg x) in S.
+    rewrite Hr, Hc in S. fold mms au max in S. rewrite Hmf in S.
+    pose proof (rfc_step_len rl au mfs mms a f) as HL.
+    assert (Hinv : forall a', same_side x1 x' -> acc_rel (x_incomplete x') a' ->
+              partial_len a' <= partial_len a + blen (rf_payload f) ->
+              Inv x' w1 a' fs' t /\ (Pm x' w1 < Pm x w)%nat /\ (Mm x' w1 < Mm x w)%nat).
+    { intros a' [S1 [S2 [S3 S4]]] Ha' Hl.
+      assert (Hcx : x_codec x' = c') by (rewrite S4; reflexivity).
+      split; [|split].
+      - unfold Inv. rewrite S1, S2, S3, Hcx.
+        split; [reflexivity|]. split; [exact Hr|]. split; [exact Hc|]. split; [exact Ha'|].
+        split; [exact Hv'|].
+        split; [unfold hdr_nz; rewrite Hh'; exact I|]. split; [exact Hb1|]. split; [exact Hok'|].
+        cbn [payload_total] in Hsz. lia.
+      - unfold Pm. rewrite Hcx. exact HP.
+      - unfold Mm. rewrite Hcx. exact HM. }
+    destruct (rfc_step rl au mfs mms a f) as [a'|m a'|m|c]; cbn [step_ok fst snd] in S.
+    + destruct S as [S0 [S1 S2]]. split; [exact S0|]. apply Hinv; assumption.
+    + destruct S as [S0 [S1 S2]]. split; [exact S0|]. apply Hinv; assumption.
+    + exact S.
+    + exact S.
+  - (* WouldBlock *)
+    apply classify_wb in Ec. subst r. cbn [post_frame] in Em. injection Em as <- <- <-.
+    destruct Hs as [Hs1 [Hs2 Hs3]]. destruct Hp as [HP Hnz'].
+    left. split; [reflexivity|]. split.
+    + unfold Inv. split; [reflexivity|]. split; [exact Hr|]. split; [exact Hc|]. split; [exact Hacc|].
+      split; [change (sview max c' rds' = raw_view max fs t); rewrite <- Hs1; exact Hv|].
+      split; [exact Hnz'|]. split; [exact Hb1|]. split; [exact Hok|exact Hsz].
+    + change (mu c' rds' < mu (x_codec x) (w_rds w))%nat.
+      apply Hs3. intros ->. specialize (Hs2 eq_refl). rewrite <- Hs1, Hv in Hs2.
+      exact (raw_view_nonempty _ _ _ Hs2).
+  - (* end of stream or header-level error *)
+    destruct Hs as [Hs _]. rewrite Hv in Hs.
+    pose proof (raw_view_stop _ _ _ _ Hs Ec) as X. right.
+    destruct fs as [|f fs']; cbn [frame_concl].
+    + destruct t as [bs|h got]; cbn [rfc_tail].
+      * subst r. cbn [post_frame] in Em. injection Em as <- <- <-. reflexivity.
+      * pose proof (raw_check_spec mfs h) as Y. fold max in Y.
+        destruct (raw_of_check max h) as [e|].
+        -- subst r. destruct (rfc_header_check mfs h) as [c|]; [|destruct e; contradiction].
+           destruct e as [u|e|s|]; try contradiction. cbn [post_frame] in Em. injection Em as <- <- <-.
+           exists e. auto.
+        -- subst r. destruct (rfc_header_check mfs h) as [c|]; [contradiction|].
+           cbn [post_frame] in Em. injection Em as <- <- <-. reflexivity.
+    + pose proof (raw_check_spec mfs (rf_hdr f)) as Y. fold max in Y. rewrite X in Y.
+      unfold rfc_step. destruct (rfc_header_check mfs (rf_hdr f)) as [c|]; [|destruct r; contradiction].
+      destruct r as [u|e|s|]; try contradiction. cbn [post_frame] in Em. injection Em as <- <- <-.
+      exists e. auto.
+Qed.
+End Sim.
